@@ -14,6 +14,14 @@ open Proto Coords
       psifield <src ra,dec,...> <evt ra,dec,...> <pairs k,e,...> <floor|->   -> psi list (ERR = IndexError)
       psffield <src ra,dec,...> <evt ra,dec,...> <sigma per event> <pairs k,e,...>   -> density list
       psf    sigma evtRa evtDec srcRa srcDec -> Gaussian PSF density
+    whole calls (lists; answer `ERR:shape` / `ERR:latitude` / `ERR:index` for a Python exception):
+      sepcall  <ra1> <dec1> <ra2> <dec2> <floor|->      -> psi list (numpy broadcasting)
+      azicall  <azi> <mjd>                              -> ra list (numpy broadcasting)
+      rotcall  <ra1> <dec1> <ra2> <dec2> <ra3> <dec3>   -> ra,dec,ra,dec,…
+      reloccall <sRa> <sDec> <tRa> <tDec> <rRa> <rDec>  -> ra,dec,ra,dec,…
+      psicall  <src> <evt> <pairs> <floor|->            -> psi list
+      defpairs K n                                      -> k,e,k,e,…
+    Every per-element answer ends with one token `b:<tag>+<tag>…` naming the branches of the model taken.
 -/
 def pairsF : List Float → List (Float × Float)
   | a :: b :: rest => (a, b) :: pairsF rest
@@ -32,20 +40,91 @@ def fO (o : Option Float) : String := match o with | some x => fF x | none => fF
 def fO2 (ra : Float) (o : Option (Float × Float)) : String :=
   match o with | some p => f2 p | none => s!"{fF ra} {fF nan}"
 
+def fErr (e : CallErr) : String := match e with
+  | .shape => "ERR:shape" | .latitude => "ERR:latitude" | .index => "ERR:index"
+def fOptPairs (r : List (Option (Float × Float))) : String :=
+  fListD (fun o => match o with | some p => s!"{fF p.1},{fF p.2}" | none => s!"{fF nan},{fF nan}") r
+
+/-! branch tags: which branch of each conditional of the model an input takes -/
+def tClip01 (x : Float) : String := if x < 0 then "clip01:lo" else if 1 < x then "clip01:hi" else "clip01:in"
+def tClipPM1 (n : String) (c : Float) : String :=
+  if 1 < c then s!"{n}:hi" else if c < -1 then s!"{n}:lo" else s!"{n}:in"
+def tDom (n : String) (x : Float) : String := if x < -1 then s!"{n}:nan-lo" else if 1 < x then s!"{n}:nan-hi" else s!"{n}:ok"
+def tAbs (n : String) (x : Float) : String := if x < 0 then s!"{n}:neg" else s!"{n}:nonneg"
+
+def tagsSep (a b c d : Float) : String :=
+  let x := havX a b c d
+  s!"b:{tClip01 x}+{tAbs "dra" (a - c)}+{tAbs "ddec" (b - d)}+{tDom "asin" (Float.sqrt (clip01 x))}"
+def tagsSepf (a b c d f : Float) : String :=
+  if angSep a b c d < f then "b:floor:applied" else "b:floor:not-applied"
+def tagsAzi (a t : Float) : String :=
+  let res := frac1 (t / len)
+  let ra := off + 2 * Transc.pi * res - a
+  let m1 := modF ra twoPi
+  let s1 := if ra < 0 then "mod1:neg-arg" else if ra < twoPi then "mod1:in-range" else "mod1:ge-2pi"
+  let s2 := if m1 < twoPi then "mod2:identity" else "mod2:maps-2pi-to-0"
+  s!"b:{s1}+{s2}"
+def tagsPsi2 (sd sr p t : Float) : String :=
+  let v := psiCircle sd sr p t
+  let azi := Coords.Fns.atan2 v.y v.x
+  let r := Transc.pi - azi
+  if r < twoPi then "b:ra:in-range" else "b:ra:2pi-to-0"
+def tagsRot (a b c d e f : Float) : String :=
+  let ca := Float.cos (c - a) * Float.cos b * Float.cos d + Float.sin b * Float.sin d
+  let n0 := cross (unitVec a b) (unitVec c d)
+  let norm := Float.sqrt (n0.x * n0.x + n0.y * n0.y + n0.z * n0.z)
+  let v := rotVec a b c d e f
+  let ra0 := Float.atan2 v.y v.x
+  let ra1 := ra0 + (if ra0 < 0 then twoPi else 0)
+  let t1 := if 0 < norm then "norm:pos" else "norm:zero"
+  let t2 := if ra0 < 0 then "ra0:neg" else "ra0:nonneg"
+  let t3 := if ra1 < twoPi then "ramod:identity" else "ramod:2pi-to-0"
+  s!"b:{tClipPM1 "cosalpha" ca}+{t1}+{t2}+{t3}+{tClipPM1 "zclip" v.z}"
+def tagsReloc (_sRa sDec tRa tDec rRa rDec : Float) : String :=
+  let cb := offsetCosB sDec (posAngle tRa tDec rRa rDec) (vincenty tRa tDec rRa rDec)
+  let t1 := if Float.cos sDec < eps then "pole-branch" else "regular-branch"
+  s!"b:{t1}+{tDom "asin-cosb" cb}"
+
 def answer (line : String) : String :=
   match tokens line with
   | ["sep", a, b, c, d] =>
-      s!"{fO (angSepD (pF a) (pF b) (pF c) (pF d))} {fF (vecAngle (pF a) (pF b) (pF c) (pF d))}"
-  | ["sepf", a, b, c, d, f] => fF (angSepFloor (pF a) (pF b) (pF c) (pF d) (some (pF f)))
-  | ["azi2ra", a, t] => fF (aziToRa len off (pF a) (pF t))
-  | ["hor", a, z, t] => f2 (horToEqu len off (pF a) (pF z) (pF t))
-  | ["psi2", sd, sr, p, t] => f2 (psiToDecRa (pF sd) (pF sr) (pF p) (pF t))
+      s!"{fO (angSepD (pF a) (pF b) (pF c) (pF d))} {fF (vecAngle (pF a) (pF b) (pF c) (pF d))} {tagsSep (pF a) (pF b) (pF c) (pF d)}"
+  | ["sepf", a, b, c, d, f] =>
+      s!"{fF (angSepFloor (pF a) (pF b) (pF c) (pF d) (some (pF f)))} {tagsSepf (pF a) (pF b) (pF c) (pF d) (pF f)}"
+  | ["azi2ra", a, t] => s!"{fF (aziToRa len off (pF a) (pF t))} {tagsAzi (pF a) (pF t)}"
+  | ["hor", a, z, t] => s!"{f2 (horToEqu len off (pF a) (pF z) (pF t))} {tagsAzi (pF a) (pF t)}"
+  | ["psi2", sd, sr, p, t] =>
+      s!"{f2 (psiToDecRa (pF sd) (pF sr) (pF p) (pF t))} {tagsPsi2 (pF sd) (pF sr) (pF p) (pF t)}"
   | ["rot", a, b, c, d, e, f] =>
-      fO2 (rotateSphericalVector (pF a) (pF b) (pF c) (pF d) (pF e) (pF f)).1
+      let r := fO2 (rotateSphericalVector (pF a) (pF b) (pF c) (pF d) (pF e) (pF f)).1
         (rotateSphericalVectorD (pF a) (pF b) (pF c) (pF d) (pF e) (pF f))
+      s!"{r} {tagsRot (pF a) (pF b) (pF c) (pF d) (pF e) (pF f)}"
   | ["reloc", a, b, c, d, e, f] =>
-      fO2 (relocate eps (pF a) (pF b) (pF c) (pF d) (pF e) (pF f)).1
+      let r := fO2 (relocate eps (pF a) (pF b) (pF c) (pF d) (pF e) (pF f)).1
         (relocateD eps (pF a) (pF b) (pF c) (pF d) (pF e) (pF f))
+      s!"{r} {tagsReloc (pF a) (pF b) (pF c) (pF d) (pF e) (pF f)}"
+  | ["sepcall", a, b, c, d, fl] =>
+      match angSepCall (pList pF a) (pList pF b) (pList pF c) (pList pF d) (if fl == "-" then none else some (pF fl)) with
+      | .ok r => fListD fO r
+      | .error e => fErr e
+  | ["azicall", a, t] =>
+      match aziToRaCall len off (pList pF a) (pList pF t) with
+      | .ok r => fListD fF r
+      | .error e => fErr e
+  | ["rotcall", a, b, c, d, e, f] =>
+      match rotateCall (pList pF a) (pList pF b) (pList pF c) (pList pF d) (pList pF e) (pList pF f) with
+      | .ok r => fOptPairs r
+      | .error e => fErr e
+  | ["reloccall", a, b, c, d, e, f] =>
+      match relocateCall eps (pList pF a) (pList pF b) (pList pF c) (pList pF d) (pList pF e) (pList pF f) with
+      | .ok r => fOptPairs r
+      | .error e => fErr e
+  | ["psicall", ss, es, ps, fl] =>
+      match psiFieldCall (pairsF (pList pF ss)) (pairsF (pList pF es)) (pairsN (pList pN ps))
+        (if fl == "-" then none else some (pF fl)) with
+      | .ok r => fListD fF r
+      | .error e => fErr e
+  | ["defpairs", k, n] => fListD (fun p => s!"{p.1},{p.2}") (defaultPairs (pN k) (pN n))
   | ["psifield", ss, es, ps, fl] =>
       let r := psiField (pairsF (pList pF ss)) (pairsF (pList pF es)) (pairsN (pList pN ps))
         (if fl == "-" then none else some (pF fl))
